@@ -52,6 +52,8 @@ def elseTypes : List Nat := [101]
 /-- per branch: the numbers of responder calls found on the control-flow paths through the branch -/
 def branchSendCounts : List (Nat × List Nat) := [(3, [1]), (4, [1]), (5, [1]), (6, [1]), (13, [1]), (18, [1]), (14, [1]), (15, [1]), (11, [1]), (12, [1]), (17, [1]), (7, [1]), (8, [1]), (9, [1]), (10, [1]), (19, [1]), (20, [1]), (16, [1]), (200, [1])]
 def elseSendCounts : List Nat := [1]
+/-- per branch (0 = the final else): the numbers of responder calls on the paths taken when a statement of the branch (or of a helper it calls) raises: sends before it + sends of enclosing finally blocks + the catch-all's STATUS in start_subsystem -/
+def branchExcSendCounts : List (Nat × List Nat) := [(3, [1]), (4, [1]), (5, [1]), (6, [1]), (13, [1]), (18, [1]), (14, [1]), (15, [1]), (11, [1]), (12, [1]), (17, [1]), (7, [1]), (8, [1]), (9, [1]), (10, [1]), (19, [1]), (20, [1]), (16, [1]), (200, [1]), (0, [1])]
 /-- the same for the helpers a branch may call instead of a responder -/
 def helperSendCounts : List (List Nat) := [[1], [1], [1], [1]]
 /-- SFTPClient._async_request: the packet is sent outside the region that holds self._lock (AST) -/
